@@ -21,7 +21,7 @@ class P(vlib.Prop):
         vlib.Harness("retry", "exporter", "./exporterhelper/", {"zz_verif_c05_test.go": "C05/retry_test.go"},
                      "^TestVerifC05$", "exporterhelper", timeout=900),
     ]
-    rule = ("retry: generated scenarios = (back-off configuration, per-attempt timeout, signal, payload ids, caller deadline, "
+    rule = ("retry: generated scenarios = (exporter calls that honour or IGNORE their context (answers arriving after the per-attempt timeout / deadline / cancellation), back-off configuration, per-attempt timeout, signal, payload ids, caller deadline, "
             "cancel instant, shutdown instant, script of backend outcomes {success, transient, permanent, throttle d, partial "
             "failure with remainder (own or foreign signal), shutdown-classified, fmt-wrapped, chains of these, COMBINED errors (errors.Join / fmt.Errorf with several %w / multierr.Combine) with such members at any position, nested, and error types with their own As/Is methods claiming to be permanent / shutdown / throttle / partial}) run on the REAL "
             "chain obsReport -> retrySender -> timeoutSender -> exporter function built by internal.NewBaseExporter with real "
